@@ -125,6 +125,7 @@ func runCases(w *out.W, cases []*loopCase) {
 		}(c)
 	}
 	wg.Wait()
+	nUnbound := 0
 	for _, c := range cases {
 		tags := ""
 		if c.ast != nil {
@@ -152,6 +153,16 @@ func runCases(w *out.W, cases []*loopCase) {
 			w.Case(c.id, cl, []string{ob})
 		} else {
 			w.ImplOnly(c.id, fmt.Sprintf("%s tables=%d viol=%d %s", c.how, c.res.nTables, len(vs), short(c.script, 300)))
+		}
+		if c.res.scriptCase != "" {
+			w.Case(c.id+"s", c.res.scriptCase, []string{c.res.scriptObs})
+			if strings.HasSuffix(c.res.scriptObs, "exec=clash") {
+				w.Count("script:clash")
+			}
+		}
+		if c.res.unboundCase != "" && nUnbound < 40 {
+			nUnbound++
+			w.Case(c.id+"u", c.res.unboundCase, []string{c.res.unboundObs})
 		}
 		w.NonTrivial(c.how + "|" + c.history + "|" + tags)
 		seen := map[string]bool{}
